@@ -82,6 +82,8 @@ pub struct Rig<const N: usize> {
     pub subs: Vec<Sub>,
     pub used_order: Vec<u16>, // tokens in the order the device completed them and not yet popped
     pub next_id: u64,
+    /// the device scribbles over driver-written areas: do not compare device-visible snapshots
+    pub quiet_visible: bool,
 }
 
 pub fn enc_qevents(evs: &[Ev], head: u128) -> Vec<u128> {
@@ -133,7 +135,7 @@ impl<const N: usize> Rig<N> {
             ctx.tr.line(101, &[start as u128], &[]);
         }
         Some(Rig { q, t, st, a, indirect, event_idx, avail_idx: start, last_used: start, dev_used_idx: start,
-            subs: vec![], used_order: vec![], next_id: 1 })
+            subs: vec![], used_order: vec![], next_id: 1, quiet_visible: false })
     }
 
     pub fn used_view(&self) -> (u16, u32, u32) {
@@ -261,7 +263,10 @@ impl<const N: usize> Rig<N> {
     }
 
     /// pop_used with the buffers of submission `k`, presenting `token`
-    pub fn pop(&mut self, ctx: &mut Ctx, k: usize, token: u16) -> bool {
+    /// pop under an adversarial device: no data monitor (the device may complete without writing)
+    pub fn pop_lenient(&mut self, ctx: &mut Ctx, k: usize, token: u16) -> bool { self.pop_impl(ctx, k, token, true) }
+    pub fn pop(&mut self, ctx: &mut Ctx, k: usize, token: u16) -> bool { self.pop_impl(ctx, k, token, false) }
+    fn pop_impl(&mut self, ctx: &mut Ctx, k: usize, token: u16, lenient: bool) -> bool {
         let (ui, uid, ulen) = self.used_view();
         let mark = hal::log_len();
         let before: Vec<Vec<u8>> = self.subs[k].outs.iter().map(|b| b.to_vec()).collect();
@@ -292,7 +297,7 @@ impl<const N: usize> Rig<N> {
             m.extend([dev as u128, same as u128]);
         }
         m.push(sub.completed as u128);
-        ctx.tr.line(152, &m, &[1]);
+        if !lenient { ctx.tr.line(152, &m, &[1]); }
         if ok {
             self.last_used = self.last_used.wrapping_add(1);
             if self.event_idx {
@@ -337,6 +342,7 @@ impl<const N: usize> Rig<N> {
         for d in &s.shadow { o.extend([d.0 as u128, d.1 as u128, d.2 as u128, d.3 as u128]); }
         for b in &s.indirect { o.push(*b as u128); }
         ctx.tr.line(140, &[], &o);
+        if self.quiet_visible { return; }
         let mut v = vec![hal::dev_read_u16(self.a.drv).unwrap() as u128, hal::dev_read_u16(self.a.drv + 2).unwrap() as u128,
                          hal::dev_read_u16(self.a.drv + 4 + 2 * N as u64).unwrap() as u128];
         for i in 0..N { v.push(hal::dev_read_u16(self.a.drv + 4 + 2 * i as u64).unwrap() as u128); }
@@ -344,6 +350,7 @@ impl<const N: usize> Rig<N> {
         ctx.tr.line(141, &[], &v);
     }
 
+    pub fn finish_lenient(self, ctx: &mut Ctx) { self.finish(ctx) }
     pub fn finish(self, ctx: &mut Ctx) {
         let Rig { q, t, subs, .. } = self;
         // shares still live must be exactly the buffers (and tables) of the outstanding chains
